@@ -21,15 +21,15 @@ open Preflate
 /-- C05 for the scanner's acceptance test with the concrete stream functions: analysis,
     reconstruction and the slice of the comparison — no panic on any candidate below 512 MiB
     (entries need not even be bytes) -/
-theorem lib_no_panic (d : Bytes) (m : String) (hd : d.length < 2 ^ 29) :
+theorem lib_no_panic (d : Bytes) (m : String) (hd : d.length < 2 ^ 61) :
     libOracle.verified d ≠ .error (.panic m) :=
   lib_no_panic_lt d hd m
 
 /-- the two oracle hypotheses of the container theorem that ARE derivable, on candidates cut out of a
-    file below 512 MiB -/
-theorem lib_no_panic_cand (f : Bytes) (hf : f.length < 2 ^ 29) (d : Bytes) (m : String) (hc : Cand f d) :
+    file below 4 GiB -/
+theorem lib_no_panic_cand (f : Bytes) (hf : f.length < 2 ^ 32) (d : Bytes) (m : String) (hc : Cand f d) :
     libOracle.verified d ≠ .error (.panic m) :=
-  lib_no_panic d m (Nat.lt_of_le_of_lt hc.1 hf)
+  lib_no_panic d m (Nat.lt_trans (Nat.lt_of_le_of_lt hc.1 hf) (by decide))
 
 theorem lib_plain_lt (d : Bytes) (r : Res) (h : libOracle.verified d = .ok r) :
     r.plain.length < 2 ^ 32 := by
@@ -42,17 +42,17 @@ theorem lib_plain_lt (d : Bytes) (r : Res) (h : libOracle.verified d = .ok r) :
     ONE hypothesis about the stream level is left: the correction bytes of every accepted stream cut out
     of `f` fit the u32 length field of the chunk format. -/
 theorem lib_round_trip (crc : Bytes → Nat) (f : Bytes)
-    (hb : ∀ b ∈ f, b < 256) (hf : f.length < 2 ^ 29)
+    (hb : ∀ b ∈ f, b < 256) (hf : f.length < 2 ^ 32)
     (hcorr : ∀ d r, Cand f d → libOracle.verified d = .ok r → r.corr.length < 2 ^ 32) :
     ∃ c, libExpand crc f = .ok c ∧ libRecreate crc c = .ok f :=
   recreate_expand_on libOracle crc f hb
-    (Nat.lt_trans hf (by decide))
+    hf
     (fun d m hc => lib_no_panic_cand f hf d m hc)
     (fun d r hc h => ⟨lib_plain_lt d r h, hcorr d r hc h⟩)
 
 /-- the same with the hypothesis in its unrestricted form -/
 theorem lib_round_trip' (crc : Bytes → Nat) (f : Bytes)
-    (hb : ∀ b ∈ f, b < 256) (hf : f.length < 2 ^ 29)
+    (hb : ∀ b ∈ f, b < 256) (hf : f.length < 2 ^ 32)
     (hcorr : ∀ d r, libOracle.verified d = .ok r → r.corr.length < 2 ^ 32) :
     ∃ c, expand libOracle crc f = .ok c ∧ recreate libOracle crc c = .ok f :=
   lib_round_trip crc f hb hf (fun d r _ h => hcorr d r h)
@@ -61,11 +61,11 @@ theorem lib_round_trip' (crc : Bytes → Nat) (f : Bytes)
 -- CAPSTONE 2 (C06 concrete)
 
 /-- zlib: a stream the library's own analysis accepts (`hacc`), with more than MIN_BLOCKSIZE bytes of
-    plaintext, behind a zlib header, in a file below 512 MiB, is found and expanded -/
+    plaintext, behind a zlib header, in a file below 4 GiB, is found and expanded -/
 theorem lib_found_zlib (crc : Bytes → Nat) (pre suf s : Bytes) (h1 : Nat) (r : Res)
     (hh : h1 ∈ zlibSecond)
     (hb : ∀ b ∈ pre ++ zlibWrap h1 s ++ suf, b < 256)
-    (hlen : (pre ++ zlibWrap h1 s ++ suf).length < 2 ^ 29)
+    (hlen : (pre ++ zlibWrap h1 s ++ suf).length < 2 ^ 32)
     (hacc : libOracle.verified (s ++ suf) = .ok r) (hbig : r.plain.length > Gen.MIN_BLOCKSIZE)
     (hq : Quiet libOracle crc (pre ++ zlibWrap h1 s ++ suf) pre.length pre.length) :
     ∃ before prev after, prev ≤ pre.length ∧
@@ -77,7 +77,7 @@ theorem lib_found_zlib (crc : Bytes → Nat) (pre suf s : Bytes) (h1 : Nat) (r :
 theorem lib_found_gzip (crc : Bytes → Nat) (pre suf s : Bytes) (g : GzipFields) (r : Res)
     (hg : g.WF)
     (hb : ∀ b ∈ pre ++ gzipHeader g ++ s ++ suf, b < 256)
-    (hlen : (pre ++ gzipHeader g ++ s ++ suf).length < 2 ^ 29)
+    (hlen : (pre ++ gzipHeader g ++ s ++ suf).length < 2 ^ 32)
     (hacc : libOracle.verified (s ++ suf) = .ok r) (hbig : r.plain.length > Gen.MIN_BLOCKSIZE)
     (hq : Quiet libOracle crc (pre ++ gzipHeader g ++ s ++ suf) pre.length pre.length) :
     ∃ before prev after, prev ≤ pre.length ∧
@@ -89,7 +89,7 @@ theorem lib_found_gzip (crc : Bytes → Nat) (pre suf s : Bytes) (g : GzipFields
 theorem lib_found_zip (crc : Bytes → Nat) (pre suf s : Bytes) (z : ZipFields) (r : Res)
     (hn : z.name.length < 65536) (hx : z.extra.length < 65536)
     (hb : ∀ b ∈ pre ++ zipHeader z ++ s ++ suf, b < 256)
-    (hlen : (pre ++ zipHeader z ++ s ++ suf).length < 2 ^ 29)
+    (hlen : (pre ++ zipHeader z ++ s ++ suf).length < 2 ^ 32)
     (hacc : libOracle.verified (s ++ suf) = .ok r) (hbig : r.plain.length > Gen.MIN_BLOCKSIZE)
     (hq : Quiet libOracle crc (pre ++ zipHeader z ++ s ++ suf) pre.length pre.length) :
     ∃ before prev after, prev ≤ pre.length ∧
@@ -103,7 +103,7 @@ theorem lib_found_idat (crc : Bytes → Nat) (pre suf s hdr adler : Bytes) (piec
     (hcat : pieces.flatten = hdr ++ s ++ adler) (hhdr : hdr.length = 2) (had : adler.length = 4)
     (hne : pieces ≠ [])
     (hb : ∀ b ∈ pre ++ idatWrap crc pieces ++ suf, b < 256)
-    (hlen : (pre ++ idatWrap crc pieces ++ suf).length < 2 ^ 29)
+    (hlen : (pre ++ idatWrap crc pieces ++ suf).length < 2 ^ 32)
     (hend : IdatEnd crc suf)
     (hacc : libOracle.verified s = .ok r) (hfull : r.size = s.length)
     (hbig : (idatWrap crc pieces).length > Gen.MIN_BLOCKSIZE)
@@ -117,7 +117,7 @@ theorem lib_found_idat (crc : Bytes → Nat) (pre suf s hdr adler : Bytes) (piec
 /-- the acceptance premise `hacc` of the four theorems, in terms of the stream level: on a byte
     candidate below 512 MiB the scanner accepts exactly when the byte-level model of
     `decompress_deflate_stream` returns Ok, with that result -/
-theorem lib_accepts_iff (d : Bytes) (hb : ∀ b ∈ d, b < 256) (hd : d.length < 2 ^ 29) (r : Res) :
+theorem lib_accepts_iff (d : Bytes) (hb : ∀ b ∈ d, b < 256) (hd : d.length < 2 ^ 61) (r : Res) :
     libOracle.verified d = .ok r ↔
     ∃ plain bytes q, decompressBytes Est.estimate Chains.pred false (toU8 d) = .ok (plain, bytes, r.size, q) ∧
       r = ⟨plain.toList, ofU8 bytes.toList, r.size⟩ := by
@@ -149,7 +149,7 @@ theorem lib_error_clean (crc : Bytes → Nat) (c f : Bytes)
     back exactly the file; and under ANY schedule of I/O failures it neither panics nor hangs, writes
     only a prefix of the file, and reports Ok only with the whole file written. -/
 theorem lib_end_to_end (crc : Bytes → Nat) (f : Bytes)
-    (hb : ∀ b ∈ f, b < 256) (hf : f.length < 2 ^ 29)
+    (hb : ∀ b ∈ f, b < 256) (hf : f.length < 2 ^ 32)
     (hcorr : ∀ d r, Cand f d → libOracle.verified d = .ok r → r.corr.length < 2 ^ 32) :
     ∃ c, libExpand crc f = .ok c ∧ libRecreate crc c = .ok f ∧
       (∀ rs ws, OnlyShort rs → OnlyShort ws →
